@@ -335,6 +335,74 @@ theorem inner_box_sound {cs : List ((List Dag × Dag) × String)} {box : Box}
     ∀ c ∈ cs, ∀ v, Eval.root Alg.real p (Eval.buildCalls Alg.real c.1.1) c.1.2 = some v →
       ∀ x ∈ v.d, C05.SignHolds c.2 x := C05.innerOk_sound h hp
 
+
+/-- **an inner box refuted**: the rule `innerRefutedBy` exhibits a real point of the box at which a constraint is
+    defined and violated (some component of its value does not satisfy the sign condition) -/
+theorem innerRefutedBy_sound {cs : List ((List Dag × Dag) × String)} {b : Box} {p : List ℚ}
+    (h : innerRefutedBy cs b p = true) :
+    Box.Mem (castL p) b ∧ ∃ c ∈ cs, ∃ v, Eval.root Alg.real (castL p) (Eval.buildCalls Alg.real c.1.1) c.1.2 = some v ∧
+      ∃ x ∈ v.d, ¬ C05.SignHolds c.2 x := by
+  simp only [innerRefutedBy, Bool.and_eq_true, List.any_eq_true] at h
+  obtain ⟨hin, c, hc, hv⟩ := h
+  refine ⟨ratIn_iff.1 hin, c, hc, ?_⟩
+  split at hv
+  · rename_i v hev
+    obtain ⟨z, hz, -, -, hd⟩ := C02.rat_root_real hev
+    refine ⟨z, hz, ?_⟩
+    -- an element of `v.d` violating the condition gives one of `z.d`
+    have key : ∀ (P : ℚ → Prop) [DecidablePred P], v.d.any (fun q => decide (P q)) = true →
+        ∃ q, P q ∧ ((q : ℚ) : ℝ) ∈ z.d := by
+      intro P _ hany
+      obtain ⟨q, hq, hP⟩ := List.any_eq_true.1 hany
+      obtain ⟨i, hi, rfl⟩ := List.getElem_of_mem hq
+      have hi' : i < z.d.length := hd.length_eq ▸ hi
+      have := (forall₂_iff_getElem?.1 hd).2 i _ _ (List.getElem?_eq_getElem hi) (List.getElem?_eq_getElem hi')
+      exact ⟨v.d[i], of_decide_eq_true hP, by simp only [RCast] at this; rw [← this]; exact List.getElem_mem hi'⟩
+    unfold specViolated at hv
+    split at hv
+    · rename_i hs
+      obtain ⟨q, hq, hm⟩ := key (fun q => 0 < q) hv
+      refine ⟨_, hm, fun hh => ?_⟩
+      have hs' : c.2 = "leq" := by simpa using hs
+      have hq' : (0 : ℝ) < q := by exact_mod_cast hq
+      rcases hh with ⟨-, h1⟩ | ⟨e, -⟩ | ⟨e, -⟩ | ⟨e, -⟩
+      · linarith
+      all_goals (rw [hs'] at e; exact absurd e (by decide))
+    · split at hv
+      · rename_i _ hs
+        obtain ⟨q, hq, hm⟩ := key (fun q => 0 ≤ q) hv
+        refine ⟨_, hm, fun hh => ?_⟩
+        have hs' : c.2 = "lt" := by simpa using hs
+        have hq' : (0 : ℝ) ≤ q := by exact_mod_cast hq
+        rcases hh with ⟨e, -⟩ | ⟨-, h1⟩ | ⟨e, -⟩ | ⟨e, -⟩
+        · rw [hs'] at e; exact absurd e (by decide)
+        · linarith
+        all_goals (rw [hs'] at e; exact absurd e (by decide))
+      · split at hv
+        · rename_i _ _ hs
+          obtain ⟨q, hq, hm⟩ := key (fun q => q < 0) hv
+          refine ⟨_, hm, fun hh => ?_⟩
+          have hs' : c.2 = "geq" := by simpa using hs
+          have hq' : (q : ℝ) < 0 := by exact_mod_cast hq
+          rcases hh with ⟨e, -⟩ | ⟨e, -⟩ | ⟨-, h1⟩ | ⟨e, -⟩
+          · rw [hs'] at e; exact absurd e (by decide)
+          · rw [hs'] at e; exact absurd e (by decide)
+          · linarith
+          · rw [hs'] at e; exact absurd e (by decide)
+        · split at hv
+          · rename_i _ _ _ hs
+            obtain ⟨q, hq, hm⟩ := key (fun q => q ≤ 0) hv
+            refine ⟨_, hm, fun hh => ?_⟩
+            have hs' : c.2 = "gt" := by simpa using hs
+            have hq' : (q : ℝ) ≤ 0 := by exact_mod_cast hq
+            rcases hh with ⟨e, -⟩ | ⟨e, -⟩ | ⟨e, -⟩ | ⟨-, h1⟩
+            · rw [hs'] at e; exact absurd e (by decide)
+            · rw [hs'] at e; exact absurd e (by decide)
+            · rw [hs'] at e; exact absurd e (by decide)
+            · linarith
+          · cases hv
+  · cases hv
+
 /-- **unknown boxes**: every component is not wider than the minimal width, or cannot be bisected -/
 theorem unknown_small_iff {b : Box} {eps : List Ext} :
     Cover.unknownSmall b eps = true ↔
